@@ -19,6 +19,12 @@
   * the `inverse_v` / `inverse_h` wrap returns a circuit for `U` itself, *assuming* every component's own
     `inverse` is correct (that is property C11; the current `BS.inverse` violates it, see the manifest note).
 
+  * the recursion of `solve` (`Model/C12Solve.lean`, the minimiser is an oracle): whatever the minimiser returns,
+    a vector handed back by `solve` (without `allow_error`) satisfies `f x ≤ precision` — in particular when a
+    constraint imposes ALL the parameters and nothing is left to optimise — and carries every imposed value at its
+    position; hence the entry a solved cell overwrites with `u[n,j] = 0` has modulus ≤ precision
+    (`solved_cell_residue_le_precision`), each summand of the `err` term of `triangle_reconstruct_with_error`.
+
   NOT proved (named residue): that the numerical solver finds parameters (`decomposeTriangle … = some _`
   and "within the configured retries"), that the final `u` of a unitary input is diagonal up to the
   precision (`lower_triangular_unitary_is_diagonal` is the exact-arithmetic half of it; the floating-point
@@ -27,6 +33,7 @@
 -/
 import PercevalModel.Lemmas.C12
 import PercevalModel.Lemmas.C12Phase
+import PercevalModel.Lemmas.C12Solve
 import PercevalModel.Num.GQ
 import Mathlib.LinearAlgebra.Matrix.Notation
 import Mathlib.LinearAlgebra.Matrix.Block
@@ -341,5 +348,141 @@ example : (∀ i j : Fin 2, i < j → (!![GQ.I, 0; 0, 1] : Matrix (Fin 2) (Fin 2
 /-- `phases_realise_diag` / `hkeep`: with the test "entry ≠ 1" a diagonal `(1, i)` gets one phase shifter -/
 example : (addPhases (fun z => decide (z ≠ 1)) (![1, GQ.I] : Fin 2 → GQ)).length = 1 := by
   decide +kernel
+
+end PM.C12
+
+
+/-! ### the solver's bookkeeping (`solve.py`) and the residue a solved cell leaves -/
+
+namespace PM.C12
+
+open Solve
+
+variable {R α β : Type}
+
+/-- `solve_sound`.  Whatever the numerical minimiser returns (`opt` is arbitrary), whatever the starting point and
+whichever parameters the constraint imposes — all of them included, the case where nothing is left to optimise —
+a vector returned by `solve` without `allow_error` satisfies `f x ≤ precision`. -/
+theorem solve_sound [AddGroup β] [LinearOrder β] (opt : (List α → β) → List α → List α) (prec : β)
+    (f : List α → β) (x0 : List α) (cs : List (Option α)) (x : List α)
+    (h : solve opt false prec f x0 cs = some x) : f x ≤ prec := by
+  fun_induction solve opt false prec f x0 cs generalizing x with
+  | case1 f x0 cs hc =>
+    simp only [Option.some.injEq] at h
+    subst h
+    exact le_of_lt (lt_of_le_of_lt (le_abs_self _) hc.2)
+  | case2 f x0 cs hc i c hfs ih =>
+    simp only [Option.map_eq_some_iff] at h
+    obtain ⟨y, hy, rfl⟩ := h
+    exact ih y hy
+  | case3 f x0 cs hc hfs x' hbad =>
+    exact absurd h (by simp)
+  | case4 f x0 cs hc hfs x' hok =>
+    simp only [Option.some.injEq] at h
+    subst h
+    simp only [and_true, not_lt] at hok
+    exact hok
+
+/-- `solve_imposed`.  With a length-preserving minimiser and `len(x0) = len(constraint)` (what
+`decompose_triangle` passes), the returned vector has one value per parameter and carries every imposed value at
+its own position (with or without `allow_error`). -/
+theorem solve_imposed [AddGroup β] [LinearOrder β] (opt : (List α → β) → List α → List α)
+    (hopt : ∀ g y, (opt g y).length = y.length) (ae : Bool) (prec : β)
+    (f : List α → β) (x0 : List α) (cs : List (Option α)) (x : List α) (hlen : x0.length = cs.length)
+    (h : solve opt ae prec f x0 cs = some x) :
+    x.length = cs.length ∧ ∀ (k : ℕ) (c : α), cs[k]? = some (some c) → x[k]? = some c := by
+  fun_induction solve opt ae prec f x0 cs generalizing x with
+  | case1 f x0 cs hc =>
+    simp only [Option.some.injEq] at h
+    subst h
+    have h0 : x0 = [] := by simpa using hc.1
+    subst h0
+    have hcs : cs = [] := List.length_eq_zero_iff.mp (by simpa using hlen.symm)
+    subst hcs
+    simp
+  | case2 f x0 cs hc i c hfs ih =>
+    simp only [Option.map_eq_some_iff] at h
+    obtain ⟨y, hy, rfl⟩ := h
+    have hi := firstSome_lt hfs
+    have hlen' : (x0.eraseIdx i).length = (cs.eraseIdx i).length := by
+      rw [List.length_eraseIdx, List.length_eraseIdx, hlen]
+    obtain ⟨hyl, hyv⟩ := ih y hlen' hy
+    rw [List.length_eraseIdx, if_pos hi] at hyl
+    have hiy : i ≤ y.length := by omega
+    refine ⟨by rw [splice_length]; omega, ?_⟩
+    intro k c' hk
+    rw [splice_getElem? c hiy]
+    split_ifs with h1 h2
+    · apply hyv
+      rw [List.getElem?_eraseIdx_of_lt h1]
+      exact hk
+    · subst h2
+      rw [firstSome_get hfs] at hk
+      simpa using hk
+    · apply hyv
+      rw [List.getElem?_eraseIdx_of_ge (by omega)]
+      have : k - 1 + 1 = k := by omega
+      rw [this]
+      exact hk
+  | case3 f x0 cs hc hfs x' hbad =>
+    exact absurd h (by simp)
+  | case4 f x0 cs hc hfs x' hok =>
+    simp only [Option.some.injEq] at h
+    subst h
+    refine ⟨?_, fun k c hk => absurd hk (firstSome_none hfs k c)⟩
+    show (if x0.isEmpty then [] else opt f x0).length = cs.length
+    split_ifs with he
+    · have : x0 = [] := by simpa using he
+      simp [← hlen, this]
+    · rw [hopt, hlen]
+
+/-- the constraint loop of `decompose_triangle` (`for c in constraints: … if res is not None: break`): the retained
+vector comes from one of the listed constraints and satisfies `f x ≤ precision` -/
+theorem solveCell_sound [AddGroup β] [LinearOrder β] (opt : (List α → β) → List α → List α) (prec : β)
+    (f : List α → β) (x0 : List α) (constraints : List (List (Option α))) (x : List α)
+    (h : solveCell opt false prec f x0 constraints = some x) :
+    f x ≤ prec ∧ ∃ c ∈ constraints, solve opt false prec f x0 c = some x := by
+  obtain ⟨c, hc, hx⟩ := List.exists_of_findSome?_eq_some h
+  exact ⟨solve_sound opt prec f x0 c x hx, c, hc, hx⟩
+
+/-- `solved_cell_residue_le_precision`.  In a solved cell `(j, n)` the code hands `solve` the function
+`g(x) = |cU_inv(x)[0,0]·u[n,j] + cU_inv(x)[0,1]·u[n+1,j]|` (`nrm` is the modulus, `cUinv` the substituted inverse
+block), multiplies `u` by the embedded `cU_inv(res)` and overwrites `u[n,j]` with 0.  The overwritten entry —
+the summand this cell contributes to `err` in `triangle_reconstruct_with_error` — has modulus ≤ precision, for
+every minimiser, every list of constraints (fully imposed ones included) and every starting point. -/
+theorem solved_cell_residue_le_precision [CommRing R] [AddGroup β] [LinearOrder β] (nrm : R → β)
+    (cUinv : List α → Matrix (Fin 2) (Fin 2) R) {m n : ℕ} (hn : n + 1 < m) (j : Fin m)
+    (M : Matrix (Fin m) (Fin m) R) (opt : (List α → β) → List α → List α) (prec : β) (x0 : List α)
+    (constraints : List (List (Option α))) (x : List α)
+    (h : solveCell opt false prec
+      (fun p => nrm (cUinv p 0 0 * M ⟨n, by omega⟩ j + cUinv p 0 1 * M ⟨n + 1, hn⟩ j)) x0 constraints = some x) :
+    nrm ((embed m n (cUinv x) * M) ⟨n, by omega⟩ j) ≤ prec := by
+  rw [embed2_mul_row hn]
+  exact (solveCell_sound opt prec _ x0 constraints x h).1
+
+/-! non-vacuity and regression witnesses (parameters and values in ℤ, `f` = sum of the parameters, precision 1,
+the "minimiser" returns its starting point) -/
+
+/-- a constraint imposing the only parameter with a value that IS a root is accepted (nothing is optimised) -/
+example : solve (fun _ y => y) false (1 : ℤ) (fun x : List ℤ => x.sum) [5] [some 0] = some [0] := by
+  rw [solve]; simp [firstSome, splice]; rw [solve]; simp
+
+/-- a constraint imposing the only parameter with a value that is NOT a root is rejected: `return None`
+(the behaviour seeded change C12-3 removed: it accepted `[]` without evaluating `f`) -/
+example : solve (fun _ y => y) false (1 : ℤ) (fun x : List ℤ => x.sum) [5] [some 3] = none := by
+  rw [solve]; simp [firstSome, splice]; rw [solve]; simp [firstSome]
+
+/-- the loop over the constraints then falls back on the next entry: `[(3,), (None,)]` with a minimiser that
+finds the root 0 -/
+example : solveCell (fun _ _ => [0]) false (1 : ℤ) (fun x : List ℤ => x.sum) [5] [[some 3], [none]] = some [0] := by
+  have h1 : solve (fun _ _ => [0]) false (1 : ℤ) (fun x : List ℤ => x.sum) [5] [some 3] = none := by
+    rw [solve]; simp [firstSome, splice]; rw [solve]; simp [firstSome]
+  have h2 : solve (fun _ _ => [0]) false (1 : ℤ) (fun x : List ℤ => x.sum) [5] [none] = some [0] := by
+    rw [solve]; simp [firstSome]
+  simp [solveCell, List.findSome?, h1, h2]
+
+/-- a partially imposed constraint: the imposed value lands at its own position, the free one is the minimiser's -/
+example : solve (fun _ _ => [-2]) false (1 : ℤ) (fun x : List ℤ => x.sum) [7, 9] [none, some 2] = some [-2, 2] := by
+  rw [solve]; simp [firstSome, splice]; rw [solve]; simp [firstSome]
 
 end PM.C12
